@@ -87,6 +87,13 @@ theorem factorize_one (N fuel : Nat) (hf : 0 < fuel) : factorize (sieve N) fuel 
   | zero => omega
   | succ f => simp [factorize]
 
+/-- The executable specification the driver prints in the `S` column (trial division) *is* the arithmetic definition:
+    so "implementation view = S" on a case is literally "implementation = `Nat.minFac` / `Nat.Prime`" on that case. -/
+theorem spec_is_arithmetic (n N : Nat) :
+    (2 ≤ n → specMinFac n = n.minFac) ∧ specIsPrime n = decide n.Prime ∧
+    specPrimes N = (List.range (N + 1)).filter Nat.Prime :=
+  ⟨specMinFac_eq n, specIsPrime_eq n, specPrimes_eq N⟩
+
 /-! ### non-vacuity: concrete limits and arguments satisfy the hypotheses, and the statements say something -/
 
 example : minPrime (sieve 100) 91 = .ok 7 := by
